@@ -3,5 +3,11 @@ package p09
 
 // knownOpen lists the finding signatures whose input class the generator steers away from
 // (counted with vlib.Excluded) so that the search continues behind a confirmed defect.
-// Setting an entry to false (or VERIF_C09_NOEXCLUDE=<sig>|all) switches the exclusion off.
-var knownOpen = map[string]bool{}
+// Setting an entry to false (or VERIF_C09_NOEXCLUDE=<sig>[,<sig>]|all) switches the exclusion off.
+var knownOpen = map[string]bool{
+	"two-rollouts-one-workload-apiversion-spelling":         true,
+	"v1alpha1-progressing-step-count-changed":               true,
+	"handle-panic-validating.GetContextFromv1alpha1Rollout": true,
+	"v1alpha1-conflict-check-blind-to-bluegreen":            true,
+	"v1alpha1-update-of-bluegreen-unguarded":                true,
+}
